@@ -445,6 +445,39 @@ pub fn cases(thorough: bool) -> Vec<Case> {
         let form = instantiate(t, a, 0, None, None);
         out.push(Case { forms: vec![form], tags: vec![format!("form={}", fam), "probe-after-each-rejected-form=1200".into()] });
     }
+    // sub-forms that are calls WITHOUT operands (a nullary ticking procedure): the key of a case, the
+    // test of a cond clause, operands of and / or, bodies - each evaluated exactly as often as a
+    // compound sub-form with operands would be
+    let nullary = ["(define (k0) (tick 90 2))", "(define (f0) (tick 91 #f))"];
+    for text in [
+        "(case (k0) ((1) 'one) ((2) 'two) (else 'other))",
+        "(case (k0) ((5) 'five) ((2) 'two) ((1) 'one) (else 'other))",
+        "(case (k0) ((5) 'five) ((7) 'seven) (else 'other))",
+        "(case (k0) (else 'only))",
+        "(case (k0) ((2) => (lambda (x) (list x))) (else 'no))",
+        "(case (k0) ((1) 'one) (else => (lambda (x) (list x 'else))))",
+        "(case (f0) ((#f) 'false) (else 'other))",
+        "(cond ((k0)) (else 'no))",
+        "(cond ((f0)) ((k0)) (else 'no))",
+        "(cond ((f0) 'a) ((k0) => list) (else 'no))",
+        "(cond ((f0) 'a) ((f0) 'b) (else (k0)))",
+        "(and (k0) (f0) (k0))",
+        "(and (k0) (k0))",
+        "(or (f0) (k0) (f0))",
+        "(or (f0) (f0))",
+        "(when (k0) (f0) (k0))",
+        "(unless (f0) (k0) (f0))",
+        "(let ((a (k0)) (b (f0))) (list a b))",
+        "(let* ((a (k0)) (b (k0))) (list a b))",
+        "(begin (k0) (f0))",
+    ] {
+        let form = parse1(text);
+        for (cname, forms) in contexts(&form) {
+            let mut all: Vec<Sx> = nullary.iter().map(|d| parse1(d)).collect();
+            all.extend(forms);
+            out.push(Case { forms: all, tags: vec![format!("form={}", text.split(|c: char| c == ' ' || c == '(').nth(1).unwrap_or("")), format!("ctx={}", cname), "nullary-subforms".into()] });
+        }
+    }
     // scale ladders: every derived form at every width N (bindings, clauses, data, operands, body
     // forms) and nesting depth D - a fast path for short forms or a bounded table shows here
     let width = if thorough { 300 } else { 120 };
